@@ -93,6 +93,7 @@ type Obligation struct {
 	output string
 	smt    string
 	replayed bool
+	plan     *replayPlan
 }
 
 func (fc *FuncCtx) oblige(name, kind string, ids []string, pc, goal *Term, cl *Clause, descr string) *Obligation {
